@@ -199,8 +199,24 @@ func init() {
 						split++
 					}
 				}
-				if split > 1 {
-					return c09Variants(3, g)
+				// keep what the flag set of the case was made of: the flag given twice, the first
+				// rule left out of the list, -optimize-basic-latin on both sides
+				last := old[len(old)-1].Flags
+				latin, omit := false, len(g.Rules) > 0
+				for _, f := range last {
+					latin = latin || f == "-optimize-basic-latin"
+					if strings.HasPrefix(f, "-alternate-entrypoints=") {
+						for _, n := range strings.Split(strings.TrimPrefix(f, "-alternate-entrypoints="), ",") {
+							if len(g.Rules) > 0 && n == g.Rules[0].Name {
+								omit = false
+							}
+						}
+					}
+				}
+				for i := 0; i < 20; i++ {
+					if (i%4 == 3) == (split > 1) && (i%5 == 2) == latin && ((i%2 == 1) == omit || split > 1) {
+						return c09Variants(i, g)
+					}
 				}
 				return c09Variants(0, g)
 			},
